@@ -1304,6 +1304,8 @@ def run_e2e09_acq(spec):
     for key in params:
         if key == "noise_variance":
             params[key] = math.exp(rng.uniform(math.log(1e-3), math.log(0.3)))
+            if spec.get("near_data"):
+                params[key] = 1e-9 * math.exp(rng.uniform(0.1, 2))   # an (almost) noise-free objective
         elif key.startswith("kernel_inv_bw"):
             params[key] = math.exp(rng.uniform(-1, 1.2))
         elif key == "kernel_covariance_scale":
@@ -1329,6 +1331,16 @@ def run_e2e09_acq(spec):
     npts = 0
     for _ in range(6):
         x = np.array([rng.uniform(0.05, 0.95) for _ in range(d)])
+        h_fd = 1e-4
+        if spec.get("near_data"):
+            # next to an observed configuration of a noise-free objective: the posterior standard deviation is tiny and its part of
+            # the gradient is what moves the acquisition value
+            x0 = np.array(Xt[rng.randrange(n)])
+            dist = 10 ** rng.uniform(-4, -3)
+            dirn = np.array([rng.choice([-1.0, 1.0]) * rng.uniform(0.3, 1) for _ in range(d)])
+            x = np.clip(x0 + dist * dirn / np.linalg.norm(dirn), 0.001, 0.999)
+            h_fd = dist / 40
+            hist["acq_point_next_to_data"] = hist.get("acq_point_next_to_data", 0) + 1
         p = pred.predict(x.reshape(1, -1))[0]
         mu, sd = np.asarray(p["mean"]).reshape(-1), float(np.asarray(p["std"]).reshape(-1)[0])
         if spec["acq"] == "ei":
@@ -1355,8 +1367,10 @@ def run_e2e09_acq(spec):
             return float(np.asarray(acq.compute_acq(v.copy())).reshape(-1)[0])
         grad = np.asarray(grad, dtype=float).reshape(-1)
         for i in range(d):
-            r, err = richardson(f, x, i, 1e-4)
+            r, err = richardson(f, x, i, h_fd)
             tol = fd_tol(grad[i], r, err, abs(alone))
+            if spec.get("near_data"):
+                tol = 50 * err + 1e-4 * max(abs(grad[i]), abs(r)) + 1e-13 * max(1.0, abs(alone)) / h_fd
             worst = max(worst, abs(grad[i] - r) / tol)
             if not abs(grad[i] - r) <= tol:
                 mon.append(F("c09:acq-gradient-not-derivative",
